@@ -107,6 +107,14 @@ dr_calc_edges(dr_basic_stat * bs, dr_pi_dag * G) {
 	  EDGE_COUNTS(k, w, w) += t->info.logical_edge_counts[k];
 	}
       }
+      if (t->info.kind == dr_dag_node_kind_section) {
+	/* the end edges from the tasks created in a section to the node
+	   after the section are accounted to the enclosing node (see
+	   dr_accumulate_stats), which is not collapsed; with this section
+	   collapsed they are not among the explicit edges either */
+	int w = (t->info.worker == -1 ? nw : t->info.worker);
+	EDGE_COUNTS(dr_dag_edge_kind_end, w, w) += t->info.n_child_create_tasks;
+      }
     }    
   }
   for (i = 0; i < m; i++) {
